@@ -1,6 +1,6 @@
 #!/bin/sh
 # tools/seedtest.sh <ID> <n> [notests]  - confirm a sub-agent's seeded change in its scratch worktree and run our check against it
-ID="$1"; N="$2"; W=/tmp/wt/$ID; S=$W/_seed/$N
+ID="$1"; N="$2"; W=${WTBASE:-/tmp/wt}/$ID; S=$W/_seed/$N
 cd "$W" || exit 2
 git checkout -q -- . ; git status --porcelain | grep -v "^??" && { echo "worktree not clean"; exit 2; }
 PYTHONPATH=$W /venv/bin/python "$S/demo.py" >/tmp/seed_$ID_$N.clean.out 2>&1; CLEAN=$?
